@@ -417,8 +417,11 @@ static bool apply_change(int kind, Cfg& c, ProjDataInfoCylindricalNoArcCorr* p, 
     int x = rng.range(first, last);
     if (x == p->get_max_ring_difference(S)) x = x == last ? x - 1 : x + 1;
     af.what = "maxdelta"; af.x = x; af.y = 0;
-    p->set_max_ring_difference(x, S);
-    p->set_min_ring_difference(-x, -S);
+    // the two members are called one after the other, in seeded order, and the object is USED in between (so that its
+    // lazy tables are rebuilt for the intermediate state, which is not recorded): each call on its own must invalidate them
+    auto use = [&] { int s = 0, a = 0; long sink = p->get_segment_axial_pos_num_for_ring_pair(s, a, 0, c.R - 1) == Succeeded::yes; sink += (long)p->get_all_ring_pairs_for_segment_axial_pos_num(0, 0).size(); return sink; };
+    if (rng.coin()) { p->set_max_ring_difference(x, S); use(); p->set_min_ring_difference(-x, -S); }
+    else { p->set_min_ring_difference(-x, -S); use(); p->set_max_ring_difference(x, S); }
     c.maxDelta = x;
     return true;
   }
@@ -492,7 +495,7 @@ static void run_cfg(vh::Trace& tr, const Cfg& c0, const std::string& name, long 
         Cfg before = c;
         std::string m3;
         bool ok = false;
-        const int kind = rng.range(0, 4);
+        const int kind = attempt == 0 ? 4 : rng.range(0, 4);   // (the ring-difference change first: it is possible least often)
         if (vh::threw([&] { ok = apply_change(kind, c, p, af, rng); }, &m3)) {
           tr.emit(vh::Json("SetRejected").str("what", af.what).num("x", af.x).num("y", af.y).raw("prev", af.prev).str("msg", m3));
           c = before;
